@@ -353,6 +353,15 @@ func (x *Exec) frameObligations(out, entry *State, penv *SpecEnv) {
 	}
 }
 
+// tierKey: answers obtained in the thorough tier are kept apart from those of the quick tier (a thorough run only
+// reuses answers of thorough runs: the sweeps of C03-C06 and C20 share most of their obligations).
+func tierKey(opts VerifyOpts, k string) string {
+	if opts.Thorough {
+		return "T" + k
+	}
+	return k
+}
+
 // smtFor renders the query for one obligation (or a batch when obls has several).
 func (x *Exec) smtFor(obls []*Obligation, timeoutMs int) string {
 	var b strings.Builder
@@ -436,8 +445,8 @@ func discharge(res *FuncResult, opts VerifyOpts, sem chan struct{}) {
 			o.Result = &SolverResult{Status: "unsat", Solver: "trivial"}
 			continue
 		}
-		if !opts.Thorough && os.Getenv("GOVC_OVERLAY") == "" {
-			if sv, ok := cacheGet(x.cacheKey(o)); ok {
+		if os.Getenv("GOVC_OVERLAY") == "" {
+			if sv, ok := cacheGet(tierKey(opts, x.cacheKey(o))); ok {
 				o.Result = &SolverResult{Status: "unsat", Solver: "cached"}
 				_ = sv
 				continue
@@ -448,7 +457,7 @@ func discharge(res *FuncResult, opts VerifyOpts, sem chan struct{}) {
 	defer func() {
 		for _, o := range pending {
 			if o.Result != nil && o.Result.Status == "unsat" && o.Kind != "cover" {
-				cachePut(x.cacheKey(o), o.Result.Solver)
+				cachePut(tierKey(opts, x.cacheKey(o)), o.Result.Solver)
 			}
 		}
 	}()
